@@ -330,14 +330,15 @@ class Matrix(object):
                     raise PyrtlError('Rows must be of type int or slice, '
                                      'instead "%s" was passed of type %s' %
                                      (str(rows), type(rows)))
-                rows = slice(rows, rows + 1, 1)
+                # (the row after the last one has no negative index: -1 selects up to the end)
+                rows = slice(rows, rows + 1 if rows != -1 else None, 1)
 
             if not isinstance(columns, slice):
                 if not isinstance(columns, int):
                     raise PyrtlError('Columns must be of type int or slice, '
                                      'instead "%s" was passed of type %s' %
                                      (str(columns), type(columns)))
-                columns = slice(columns, columns + 1, 1)
+                columns = slice(columns, columns + 1 if columns != -1 else None, 1)
 
             if rows.start is None:
                 rows = slice(0, rows.stop, rows.step)
